@@ -12,11 +12,12 @@ import json
 import os
 import shutil
 import tempfile
+import weakref
 
 from botocore.exceptions import IncompleteReadError, ReadTimeoutError
 
 from common import rng_for
-from fakes3 import FakeS3, FaultPlan, InjectedFault, retryable_error
+from fakes3 import FakeS3, FaultPlan, InjectedFault, InjectedInterrupt, retryable_error
 from sched import Deadlock, Livelock, SchedAbort, Scheduler
 from shim import Installed
 
@@ -47,7 +48,7 @@ class SrcStream:
         k = self.nreads
         self.nreads += 1
         if self.fault_at is not None and k == self.fault_at:
-            exc = InjectedFault('src-read-%d' % self.ti)
+            exc = (InjectedInterrupt if getattr(self, 'fault_kind', 'plain') == 'interrupt' else InjectedFault)('src-read-%d' % self.ti)
             self.env.fired(self.ti, 'src-read', exc)
             raise exc
         rem = len(self.data) - self.pos
@@ -135,6 +136,32 @@ class DestStream:
             self.env.log('dest-write-end', ti=self.ti)
 
 
+class SpecialFile:
+    """What `open()` of a FIFO / character device gives: writes go to the stream behind it, no seeking."""
+
+    def __init__(self, stream):
+        self.stream = stream
+        self.closed = False
+
+    def write(self, data):
+        return self.stream.write(data)
+
+    def seek(self, *a):
+        raise OSError(29, 'Illegal seek')
+
+    def tell(self):
+        raise OSError(29, 'Illegal seek')
+
+    def close(self):
+        self.closed = True
+
+    def __enter__(self):
+        return self
+
+    def __exit__(self, *a):
+        self.close()
+
+
 class FileWrapper:
     def __init__(self, env, f, name):
         self.env, self.f, self.name = env, f, name
@@ -168,11 +195,38 @@ class FileWrapper:
         self.close()
 
 
+_TRACKED = {}
+
+
+def _tracked_chunk_class(base):
+    """`base` with a close() that is logged — a subclass, so that `body.close` stays an ordinary bound
+    method (holding the body) exactly as in the uninstrumented code"""
+    if base not in _TRACKED:
+        class Tracked(base):
+            def close(self):
+                rec = self._s3v_rec
+                if not rec['closed']:
+                    rec['closed'] = True
+                    self._s3v_env.log('body-closed', bid=rec['bid'], in_memory=rec['in_memory'])
+                return base.close(self)
+        Tracked.__name__ = base.__name__
+        Tracked.__qualname__ = base.__qualname__
+        _TRACKED[base] = Tracked
+    return _TRACKED[base]
+
+
 def make_osutils(env):
     from s3transfer.utils import OSUtils
 
     class InstrumentedOSUtils(OSUtils):
+        def is_special_file(self, filename):
+            return filename in env.special or super().is_special_file(filename)
+
         def open(self, filename, mode):
+            if filename in env.special:
+                env.fs_point('open', filename)
+                env.log('fs-open', name=os.path.basename(filename), mode=mode)
+                return SpecialFile(env.special[filename])
             if 'w' in mode or '+' in mode or 'a' in mode:
                 env.fs_point('open', filename)
                 env.log('fs-open', name=os.path.basename(filename), mode=mode)
@@ -194,14 +248,17 @@ def make_osutils(env):
             coord = getattr(fileobj, '_transfer_coordinator', None)
             if coord is None:
                 coord = getattr(getattr(fileobj, '_fileobj', None), '_transfer_coordinator', None)
+            # part buffers that are still reachable and not closed when this one is created: what the
+            # process holds in memory at this moment (reference counting frees a buffer as soon as the
+            # last reference goes)
+            alive = sum(1 for r in env.body_refs if r['in_memory'] and not r['closed'] and r['ref']() is not None)
             bid = env.log('body-created', in_memory=in_memory, size=chunk_size,
-                          ti=getattr(coord, 'transfer_id', None))
-            orig_close = body.close
-
-            def close():
-                env.log('body-closed', bid=bid, in_memory=in_memory)
-                return orig_close()
-            body.close = close
+                          ti=getattr(coord, 'transfer_id', None), alive_before=alive)
+            rec = {'in_memory': in_memory, 'closed': False, 'ref': weakref.ref(body), 'bid': bid}
+            env.body_refs.append(rec)
+            body._s3v_rec = rec
+            body._s3v_env = env
+            body.__class__ = _tracked_chunk_class(type(body))
             return body
 
         def rename_file(self, cur, new):
@@ -221,7 +278,7 @@ def make_subscriber(env, ti, spec):
             if spec.get('provide_size') is not None:
                 future.meta.provide_transfer_size(spec['provide_size'])
             if spec.get('raise_in') == 'queued':
-                exc = UserExc('queued-%d' % ti)
+                exc = (InjectedInterrupt if spec.get('raise_kind') == 'interrupt' else UserExc)('queued-%d' % ti)
                 env.fired(ti, 'cb-queued', exc)
                 raise exc
 
@@ -230,7 +287,7 @@ def make_subscriber(env, ti, spec):
             env.log('cb-progress', ti=ti, sub=spec['id'], v=bytes_transferred)
             if spec.get('raise_in') == 'progress' and not spec.get('_raised'):
                 spec['_raised'] = True
-                exc = UserExc('progress-%d' % ti)
+                exc = (InjectedInterrupt if spec.get('raise_kind') == 'interrupt' else UserExc)('progress-%d' % ti)
                 env.fired(ti, 'cb-progress', exc)
                 raise exc
 
@@ -247,7 +304,9 @@ def make_subscriber(env, ti, spec):
                 elif act == 'result':
                     try:
                         future.result()
-                    except Exception:
+                    except SchedAbort:
+                        raise
+                    except BaseException:   # noqa: the transfer's failure may be an injected Ctrl-C
                         pass
                 elif act == 'cancel':
                     future.cancel()
@@ -256,6 +315,11 @@ def make_subscriber(env, ti, spec):
                         future.set_exception(UserExc('set-by-on-done-%d' % ti))
                     except Exception as e:   # noqa
                         env.log('reentrant-error', ti=ti, what=repr(e))
+            if spec.get('chain'):
+                # user code that starts the next transfer from the completion callback of the previous one
+                env.log('chain-submit', ti=ti)
+                env.chained.append((ti, env.tm.delete('b', 'chained-%s' % 'abcdefghij'[ti % 10])))
+                env.log('chain-submitted', ti=ti)
             env.log('cb-done-end', ti=ti, sub=spec['id'])
             if spec.get('raise_in') == 'done':
                 raise UserExc('done-%d' % ti)
@@ -271,6 +335,10 @@ class Env:
         self.fs_faults = {}     # (op, nth) -> True
         self.fs_counts = {}
         self.path_watch = []    # (final path, previous content, object bytes)
+        self.special = {}       # path of a special file (FIFO) -> the stream behind it
+        self.body_refs = []     # upload part bodies: weak references, closed flags
+        self.chained = []       # (ti, future) of transfers submitted from an on_done callback
+        self.tm = None
         self.c06_violations = []
         self.shutdown_returned_at = None
 
@@ -305,6 +373,8 @@ class Env:
         base = os.path.basename(name)
         for ti, t in enumerate(self.sc['transfers']):
             if t.get('dest') == 'path' and base.startswith('dst%d' % ti):
+                return ti
+            if t.get('dest') == 'special' and base == 'fifo%d' % ti:
                 return ti
         return None
 
@@ -341,7 +411,9 @@ EXTRA_ARG_SETS = {
 
 def make_local_fault(kind, tag, base=None):
     import socket
-    if kind == 'brokenpipe':
+    if kind == 'interrupt':
+        e = InjectedInterrupt(tag)
+    elif kind == 'brokenpipe':
         e = BrokenPipeError(32, 'injected:%s' % tag)
     elif kind == 'timeout':
         e = socket.timeout('injected:%s' % tag)
@@ -392,7 +464,7 @@ def gen_scenario(rng, focus=None):
             if t['source'] == 'seekable' and rng.random() < 0.5:
                 t['wraps_fd'] = rng.choice(['shorter', 'longer'])
         elif kind == 'download':
-            t['dest'] = rng.choice(['path', 'seekable', 'nonseekable', 'nonseekable'])
+            t['dest'] = rng.choice(['path', 'path', 'seekable', 'seekable', 'nonseekable', 'nonseekable', 'nonseekable', 'special'])
             if t['dest'] == 'path':
                 t['previous'] = rng.choice([None, None, 5])
         if rng.random() < 0.3:
@@ -407,6 +479,8 @@ def gen_scenario(rng, focus=None):
                 sp['reentrant'] = rng.sample(['done', 'meta', 'result'], rng.randrange(1, 4))
             elif r < 0.38 and kind in ('download', 'copy'):
                 sp['provide_size'] = size
+            elif r < 0.44:
+                sp['chain'] = True
             subs.append(sp)
         t['subscribers'] = subs
         transfers.append(t)
@@ -454,6 +528,10 @@ def gen_scenario(rng, focus=None):
         sc['fresh_after'] = False
     if focus:
         focus(sc, rng)
+    # a callback that submits another transfer needs room in the queues its own caller occupies (a bounded
+    # queue of one slot whose only slot is held by the code that submits is the user's deadlock, not the library's)
+    if any(s.get('chain') for t in sc['transfers'] for s in t['subscribers']):
+        normalize_chain_cfg(sc['cfg'])
     # a size supplied by a subscriber is the true size (a wrong one is the user's error), and only
     # downloads / copies need one
     for t in sc['transfers']:
@@ -463,6 +541,55 @@ def gen_scenario(rng, focus=None):
                     s['provide_size'] = t['size']
                 else:
                     del s['provide_size']
+    return sc
+
+
+def strip_chains(sc):
+    for t in sc['transfers']:
+        for s_ in t['subscribers']:
+            s_.pop('chain', None)
+    return sc
+
+
+def normalize_chain_cfg(cfg):
+    for k in ('max_submission_queue_size', 'max_request_queue_size', 'max_io_queue_size'):
+        cfg[k] = max(cfg[k], 4)
+
+
+def make_serial(sc, rng):
+    """The same scenario on a manager whose tasks run in the caller's thread (NonThreadedExecutor, what
+    boto3 builds for use_threads=False).  That thread is where Ctrl-C lands, so faults may be
+    KeyboardInterrupts raised inside a request, a read, a write or a callback."""
+    sc['serial'] = True
+    sc['mode'] = 'uniform'
+    sc.pop('stall', None)
+    sc.pop('early_shutdown', None)
+    if sc['cancel'] and sc['cancel']['kind'] in ('interrupt-result', 'interrupt-exit'):
+        sc['cancel'] = None
+    nt = len(sc['transfers'])
+    if not sc['faults'] and rng.random() < 0.8:
+        r = rng.random()
+        if r < 0.5:
+            sc['faults'].append({'site': 'req', 'op': rng.choice(['head_object', 'get_object', 'put_object', 'create_multipart_upload',
+                                                                   'upload_part', 'upload_part_copy', 'complete_multipart_upload',
+                                                                   'copy_object', 'delete_object']),
+                                 'nth': rng.choice([0, 0, 1, 2]), 'when': rng.choice(['before', 'after']), 'exc_kind': 'plain'})
+        elif r < 0.8:
+            sc['faults'].append({'site': 'body', 'nth_get': rng.choice([0, 0, 1, 2]), 'after': rng.randrange(0, 6), 'kind': 'fatal'})
+        elif r < 0.9:
+            sc['faults'].append({'site': 'src-read', 'transfer': rng.randrange(nt), 'nth': rng.randrange(0, 4)})
+        else:
+            sc['faults'].append({'site': 'dest-write', 'transfer': rng.randrange(nt), 'nth': rng.randrange(0, 4), 'exc_kind': 'plain'})
+    for f in sc['faults']:
+        if rng.random() < 0.7:
+            if f['site'] == 'body':
+                f['kind'] = 'interrupt'
+            else:
+                f['exc_kind'] = 'interrupt'
+    for t in sc['transfers']:
+        for s_ in t['subscribers']:
+            if s_.get('raise_in') in ('queued', 'progress') and rng.random() < 0.6:
+                s_['raise_kind'] = 'interrupt'
     return sc
 
 
@@ -567,7 +694,12 @@ def _track_occupancy(sh, run):
 def _run_inner(sc, sch, sh, env, run):
     from s3transfer.manager import TransferConfig, TransferManager
     cfg = sc['cfg']
-    undo_occ = _track_occupancy(sh, run)
+    if sc.get('serial'):
+        # every task runs inline in the caller's thread: nothing is ever queued
+        run.occupancy_high = {}
+        undo_occ = lambda: None
+    else:
+        undo_occ = _track_occupancy(sh, run)
     try:
         _run_inner2(sc, sch, sh, env, run)
     finally:
@@ -592,7 +724,9 @@ def _run_inner2(sc, sch, sh, env, run):
     cfg = sc['cfg']
     req_faults = [dict(f) for f in sc['faults'] if f['site'] == 'req']
     for f in req_faults:
-        if f.get('exc_kind') == 'conn':
+        if f.get('exc_kind') == 'interrupt':
+            f['exc'] = (lambda f=f: InjectedInterrupt('req-%s-%d-%s' % (f['op'], f['nth'], f['when'])))
+        elif f.get('exc_kind') == 'conn':
             # a connection-level error: retryable by the library only where the property says so
             # (the GetObject call of a download attempt), an ordinary failure everywhere else
             f['exc'] = (lambda f=f: retryable_error('conn', 'req-%s-%d-%s' % (f['op'], f['nth'], f['when'])))
@@ -628,6 +762,8 @@ def _run_inner2(sc, sch, sh, env, run):
                     pos += s
                 if f['kind'] == 'retryable':
                     return sizes + [('fault', lambda: retryable_error(['incomplete', 'timeout', 'conn'][n % 3], ('get', n)))]
+                if f['kind'] == 'interrupt':
+                    return sizes + [('fault', lambda: InjectedInterrupt('body-%d' % n))]
                 return sizes + [('fault', lambda: InjectedFault('body-%d' % n))]
         return None
     fake.get_script_fn = script_fn
@@ -653,6 +789,8 @@ def _run_inner2(sc, sch, sh, env, run):
                 sp['fileobj'] = p
             else:
                 sp['fileobj'] = SrcStream(env, ti, data, t['source'] == 'seekable', t.get('caps', []), src_fault)
+                sp['fileobj'].fault_kind = next((f.get('exc_kind', 'plain') for f in sc['faults']
+                                                 if f['site'] == 'src-read' and f['transfer'] == ti), 'plain')
                 if t.get('wraps_fd') and t['source'] == 'seekable':
                     decoy = os.path.join(tmpdir, 'decoy%d' % ti)
                     with open(decoy, 'wb') as f:
@@ -671,6 +809,15 @@ def _run_inner2(sc, sch, sh, env, run):
                 sp['fileobj'] = p
                 sp['previous'] = prev
                 env.path_watch.append((p, prev, data, ti))
+            elif t['dest'] == 'special':
+                # a special file (FIFO) given by name
+                p = os.path.join(tmpdir, 'fifo%d' % ti)
+                st = DestStream(env, ti, False, dst_fault)
+                st.fault_kind = next((f.get('exc_kind', 'plain') for f in sc['faults']
+                                      if f['site'] == 'dest-write' and f['transfer'] == ti), 'plain')
+                env.special[p] = st
+                sp['fileobj'] = p
+                sp['special_stream'] = st
             else:
                 sp['fileobj'] = DestStream(env, ti, t['dest'] == 'seekable', dst_fault)
                 sp['fileobj'].fault_kind = next((f.get('exc_kind', 'plain') for f in sc['faults']
@@ -709,6 +856,8 @@ def _run_inner2(sc, sch, sh, env, run):
             run.outcomes[ti] = ('ok', r)
         except SchedAbort:
             raise
+        except InjectedInterrupt as e:
+            run.outcomes[ti] = ('raise', e)
         except KeyboardInterrupt as e:
             run.outcomes[ti] = ('interrupt', e)
             raise
@@ -722,8 +871,16 @@ def _run_inner2(sc, sch, sh, env, run):
         proto = {'sign_reads': any(t.get('sign_reads') for t in sc['transfers']),
                  'rewinds': max([t.get('rewinds', 0) for t in sc['transfers']] + [0]), 'read_size': 3}
         fake.body_protocol = proto
-        tm = TransferManager(fake, tcfg, osutil=osutil, executor_cls=sh.Executor)
+        if sc.get('serial'):
+            from s3transfer.futures import NonThreadedExecutor
+            tm = TransferManager(fake, tcfg, osutil=osutil, executor_cls=NonThreadedExecutor)
+        else:
+            tm = TransferManager(fake, tcfg, osutil=osutil, executor_cls=sh.Executor)
         run.tm = tm
+        env.tm = tm
+        for ti_ in range(len(specs)):
+            fake.objects[('b', 'chained-%s' % 'abcdefghij'[ti_ % 10])] = b'x'
+            fake.faults.exempt_keys.add('chained-%s' % 'abcdefghij'[ti_ % 10])
         futs = {}
         canceller = None
         try:
@@ -831,6 +988,7 @@ def _run_inner2(sc, sch, sh, env, run):
                     raise
                 except BaseException as e:   # noqa
                     run.fresh = ('raise', e)
+            sh.interrupt_plan.clear()     # a planned Ctrl-C that never found its wait must not land in this shutdown
             env.log('shutdown-call', cancel=False)
             tm.shutdown()
             env.shutdown_returned_at = env.log('shutdown-returned')
